@@ -329,6 +329,18 @@ func candidates(c *call) []*call {
 			}
 		}
 	}
+	// lower-case a letter
+	for i := range c.seqs {
+		for j := len(c.seqs[i]) - 1; 0 <= j; j-- {
+			if l := c.seqs[i][j]; 'A' <= l && l <= 'Z' {
+				d := c.clone()
+				d.seqs[i] = c.seqs[i][:j] + string(l+'a'-'A') + c.seqs[i][j+1:]
+				if d.valid() {
+					out = append(out, d)
+				}
+			}
+		}
+	}
 	// replace a letter by a
 	for i := range c.seqs {
 		for j := len(c.seqs[i]) - 1; 0 <= j; j-- {
